@@ -432,7 +432,6 @@ pub fn run(args: &Args, rep: &Arc<Report>) {
         return;
     }
     let thorough = args.tier == "thorough";
-    let _ = thorough;
     let cfgs = all_configs_depth(3);
     let n = cfgs.len();
     let chunk = 16;
@@ -450,7 +449,49 @@ pub fn run(args: &Args, rep: &Arc<Report>) {
             }
         },
     );
+    // the block-size line: the default configuration at every block size of the documented range (quick:
+    // every size up to 1100 and the neighbourhood of every block-size code class of the frame header)
+    let mut sizes: Vec<usize> = if thorough { (32..=32767).collect() } else { (32..=1100).collect() };
+    for k in 0..=7u32 {
+        for base in [576usize, 256] {
+            let v = base << k;
+            for l in [v - 1, v, v + 1] {
+                if (32..=32767).contains(&l) {
+                    sizes.push(l);
+                }
+            }
+        }
+    }
+    sizes.extend_from_slice(&[32766, 32767, 65535 / 2, 16383, 16385]);
+    sizes.sort_unstable();
+    sizes.dedup();
+    let ns = sizes.len();
+    par_for(
+        rep,
+        ns,
+        Duration::from_secs(600),
+        |i| json!({"config": FullCfg { block_size: sizes[i], ..FullCfg::default_point() }}),
+        |i, local| {
+            let fc = FullCfg { block_size: sizes[i], ..FullCfg::default_point() };
+            let cj = || json!({"config": fc, "block_size_line": true});
+            local.evals += 1;
+            match panicx::catch(|| fc.to_config().into_verified()) {
+                Err(p) => rep.violation(&format!("verify_{}", p.class()), &format!("verification panicked: {}", p.describe()), cj(), 1),
+                Ok(Err(_)) => rep.violation("rejects_in_range", &format!("verification rejects the default configuration at block size {}", sizes[i]), cj(), 1),
+                Ok(Ok(vc)) => {
+                    let mut p = probes[0].clone();
+                    p.input.full = 1;
+                    p.input.tail = 17;
+                    p.input.atoms = [13, 26, 13, 13];
+                    run_probe(rep, local, &fc, &vc, &p, fc.block_size, &cj, 2);
+                    local.outcome("block_size_line_done");
+                    local.nontrivial.insert(universe::fnv(&format!("bsline{}", sizes[i])));
+                }
+            }
+        },
+    );
+    rep.extra("block_size_line", json!(ns));
     rep.extra("configurations", json!(n));
     rep.extra("deviation_depth", json!(3));
-    rep.set_rule("every single- and two-field deviation from three valid base configurations (default, all-minimum, all-maximum), and every three-field deviation from the default; per field {min-1, min, middle, max, max+1, 2^8+k, 2^32+k, usize::MAX}, alpha over {Rectangle, -0.0, -eps, 0, 2^-17, 0.5, 1, 1+eps, NaN, +-inf, +-subnormal, 2}, both OrderSel variants, all booleans; oracle (a): into_verified().is_ok() == (every field inside the documented range) and verify() agrees; oracle (b): every accepted in-range configuration encodes 7 probe inputs (+1 at its own block size) without panic, decodable losslessly by the reference decoder and claxon; non-trivial = an accepted in-range configuration");
+    rep.set_rule("every single- and two-field deviation from three valid base configurations (default, all-minimum, all-maximum), and every three-field deviation from the default; per field {min-1, min, middle, max, max+1, 2^8+k, 2^32+k, usize::MAX}, alpha over {Rectangle, -0.0, -eps, 0, 2^-17, 0.5, 1, 1+eps, NaN, +-inf, +-subnormal, 2}, both OrderSel variants, all booleans; oracle (a): into_verified().is_ok() == (every field inside the documented range) and verify() agrees; oracle (b): every accepted in-range configuration encodes 7 probe inputs (+1 at its own block size) without panic, decodable losslessly by the reference decoder and claxon; oracle (c), the block-size line: the default configuration at every block size 32..=1100 and around every block-size code class of the frame header (thorough: at EVERY block size 32..=32767) is accepted and encodes a block plus a 17-sample tail losslessly; non-trivial = an accepted in-range configuration");
 }
